@@ -16,6 +16,43 @@ var VerifHarnesses = map[string]func(){
 	"VerifC15After":    VerifC15After,
 	"VerifC15Unrolled": VerifC15Unrolled,
 	"VerifC15Call":     VerifC15Call,
+	"VerifSelftestBreaker": VerifSelftestBreaker,
+}
+
+type verifFixedClock struct {
+	clock.Clock
+	now *time.Time
+}
+
+func (c verifFixedClock) Now() time.Time { return *c.now }
+
+// VerifSelftestBreaker: the scripted scenario of breaker_test.go (three failures trip, back-off,
+// half-open, success closes) with a concrete clock, observed in both execution modes.
+func VerifSelftestBreaker() {
+	now := time.Unix(1000, 0)
+	changes := ""
+	b := NewBreaker(&Options{
+		BackoffDurationFunc: func(Counts) time.Duration { return 10 * time.Second },
+		OnStateChange:       func(from, to State) { changes += from.String() + ">" + to.String() + " " },
+		TestClock:           verifFixedClock{now: &now},
+	})
+	fail := func() (interface{}, error) { return nil, errVerif }
+	succeed := func() (interface{}, error) { return 1, nil }
+	for i := 0; i < 3; i++ {
+		_, err := b.Call(fail)
+		zz.Observe("fail", err != nil)
+	}
+	_, err := b.Call(succeed)
+	_, open := err.(*ErrOpenState)
+	zz.Observe("open.rejects", open)
+	now = now.Add(11 * time.Second)
+	_, err = b.Call(succeed)
+	zz.Observe("half-open.admits", err == nil)
+	zz.Observe("state", b.state.String()+" gen "+string(rune('0'+b.generation)))
+	_, err = b.Call(fail)
+	_, err = b.Call(fail)
+	zz.Observe("counts", int(b.counts.ConsecutiveFailures)*10+int(b.counts.ConsecutiveSuccesses))
+	zz.Observe("changes", changes)
 }
 
 type verifClock struct {
